@@ -6,6 +6,18 @@ from harness.props.c01 import C01
 class C03(RunProp):
     id = 'C03'
     rule = C01.rule
+    manifest = {
+        'text': 'Theorems (same model and quantifier as C01): success is reported iff no stage raised, no expectThat mismatched and '
+                'force_failure is unset; a single exception yields the outcome its type maps to, user handlers first in list order; whenever '
+                'any stage raised something that maps to failure or error the one reported outcome is failure/error/unexpected success, '
+                'whatever other stages raised before or after (all ordered combinations of kinds and stages at once). The documented '
+                'type->outcome mapping is stated independently of the exception_handlers table extracted from testcase.py; a theorem proves '
+                'the extracted table implements it, so a reordered table breaks the proof and the differential check finds the failing test.',
+        'note': 'trusted: Lean kernel; model TTV/Model/RunTest.lean; harness/mrun.py; hypotheses: wf (distinct stage ids, user handlers only for '
+                'Exception subclasses), user handlers report unsuccessful outcomes for no-downgrade / do not report success for success-iff '
+                '(a user handler is arbitrary code); 2.6-style results not judged for success-iff (they show skip as success, see C08)',
+        'technique': 'Lean 4 proofs about exception selection (list folds) over the M-Run model, generated handler table proved against a documented mapping, differential correspondence',
+    }
 
 
 PROP = C03()
